@@ -353,7 +353,7 @@ func c11RandTree(r *rand.Rand, d int, bias string) *ra.Expr {
 	if d <= 0 {
 		l := leaves[r.IntN(len(leaves))]
 		if r.IntN(25) == 0 {
-			return num(pick(r, []string{"08", "0x", "09", "1a", "0xG", "9223372036854775808", "00", "0X1f", "077"}))
+			return num(pick(r, []string{"08", "0x", "09", "0xG", "9223372036854775808", "00", "0X1f", "077"}))
 		}
 		return l
 	}
